@@ -260,6 +260,18 @@ class Runner:
             ins.add_attrib("TAG", "value", (0, 0))
             ins.add_attrib("TAG2", "v2", (0, 1))
             self.track(ins)
+        elif kind == "delattribs":
+            e = self.ents[op[1]]
+            if e.is_alive and e.dxftype() == "INSERT":
+                e.delete_all_attribs()
+                if len(op) > 2 and op[2] and e.dxf.owner is not None:
+                    e.add_attrib("AGAIN", "v", (0, 0))   # attribs again after all were deleted
+        elif kind == "addattrib":
+            e = self.ents[op[1]]
+            if e.is_alive and e.dxftype() == "INSERT" and e.dxf.owner is not None:
+                e.add_attrib("T%d" % len(e.attribs), "v", (0, 0))
+        elif kind == "customprop":
+            doc.header.custom_vars.append("Key%d" % len(doc.header.custom_vars), "value")
         elif kind == "group":
             if r12:
                 return
@@ -350,7 +362,7 @@ class Runner:
         return f"{cs};{' '.join(es)};{bs};{ls};{act};{ly}"
 
 
-RICH_OPS = {"addpoly", "addpoly3d", "addmisc", "insattr", "group", "xdict", "xdata", "reactor", "explode",
+RICH_OPS = {"delattribs", "addattrib", "customprop", "addpoly", "addpoly3d", "addmisc", "insattr", "group", "xdict", "xdata", "reactor", "explode",
             "copylinked", "audit", "dellinked", "newlayer_used"}
 
 
@@ -396,6 +408,12 @@ def gen_rich(rng):
                 return ("newblock", "B1")
             return ("insattr", rng.choice(layout_keys(r)), rng.choice(blocks))
         if x < 0.78:
+            inserts = [h for h in linked if r.ents[h].dxftype() == "INSERT"]
+            if inserts:
+                k = rng.choice(["delattribs", "addattrib", "addattrib"])
+                return (k, rng.choice(inserts), rng.random() < 0.6)
+            return ("customprop",)
+        if x < 0.80:
             return ("group", rng.sample(linked, min(len(linked), rng.randint(1, 3))))
         if x < 0.82:
             return ("xdict", rng.choice(linked))
